@@ -40,7 +40,14 @@ func (c *Config) CountField(name string, opts ...Option) (int, error) {
 	}
 
 	if v, ok := c.fields.get(name); ok {
-		return v.Len(makeOptions(opts))
+		n, err := v.Len(makeOptions(opts))
+		if err != nil {
+			if _, ok := err.(Error); !ok {
+				err = raisePathErr(err, v.meta(), "", c.PathOf(name, "."))
+			}
+			return n, err
+		}
+		return n, nil
 	}
 	return -1, raiseMissing(c, name)
 }
